@@ -196,7 +196,8 @@ def release_args(c):
     """the expression released by a release primitive call"""
     n = cname(c)
     if n in ('XalanDestroy', 'XalanDestruct'):
-        return c['args'][-1:] if c['args'] else []
+        # XalanDestroy(manager, object) destroys and returns the storage; XalanDestroy(object) only runs the destructor
+        return c['args'][-1:] if len(c.get('args', [])) >= 2 else []
     if n in ('destroy', 'deallocate', 'destroyObject'):
         return c['args'][-1:] if c['args'] else []
     return []
@@ -270,10 +271,6 @@ def stmt_events(flow, rel, n_ast):
                     s = flow.reads(x['rhs'])
                     if s:
                         ev.append(('transfer', s, x))
-        elif k == 'MCall' and x.get('n') and x['n'].startswith('~'):
-            s = flow.reads(x.get('obj'))
-            if s:
-                ev.append(('release', s, x))
     return ev
 
 
@@ -682,4 +679,45 @@ def r8_handover(res, facts, own):
                 r.ok(site, 'release() follows immediately')
     if n < 4:
         raise AnalysisBroken('only %d guarded hand-over sites into owners found (6 confirmed by hand)' % n)
+    return r
+
+
+
+# ----------------------------------------------------------------------------------------------- R9: destruct-only
+INFRA = ('/src/xalanc/Include/', '/PlatformSupport/ArenaBlock', '/PlatformSupport/ReusableArenaBlock', '/PlatformSupport/ArenaAllocator', '/PlatformSupport/ReusableArenaAllocator',
+         '/PlatformSupport/XalanArrayAllocator', '/PlatformSupport/XalanAllocator')
+
+
+def r9_destruct_only(res, facts):
+    r = res.rule('C19-R9', 'outside the container / arena layer an object is never only destructed: an explicit destructor call or the one-argument XalanDestroy(object) — which do not '
+                 'return the storage — is followed in the same function by deallocate() of the same pointer on the manager', floor=1)
+    n = 0
+    for k in facts.astidx:
+        a = facts.ast(k)
+        if a is None or not facts.lib_path(a['file']) or any(t in a['file'] for t in INFRA):
+            continue
+        sites = []
+        for c in calls(a['body']):
+            nm = cname(c)
+            if c.get('k') == 'MCall' and nm.startswith('~'):
+                sites.append((c, strip_casts(c.get('obj'))))
+            elif nm == 'XalanDestroy' and len(c.get('args', [])) == 1:
+                sites.append((c, strip_casts(c['args'][0])))
+        if not sites:
+            continue
+        fn = strip_t(short(facts.name[k]))
+        deallocs = [pp(strip_casts(x['args'][-1])).replace('(void *)', '').strip('()* ') for x in calls(a['body']) if cname(x) == 'deallocate' and x.get('args')]
+        for c, obj in sites:
+            n += 1
+            t = pp(obj).strip('()*& ') if obj is not None else '?'
+            while t.startswith('*'):
+                t = t[1:]
+            site = '%s: %s' % (fn, pp(c)[:50])
+            if any(t and (t == d or t in d or d in t) for d in deallocs):
+                r.ok(site, 'storage returned by deallocate(%s)' % t)
+            else:
+                r.violation(site, 'the object is destructed but its storage is not returned: %s only runs the destructor, and no deallocate() of %s follows in this function — the block '
+                            'stays with the MemoryManager for ever' % (pp(c)[:40], t), common.file_line(a, c))
+    if n == 0:
+        raise AnalysisBroken('no destruct-only site found outside the container layer (StylesheetExecutionContextDefault::returnXResultTreeFrag expected)')
     return r
